@@ -232,7 +232,7 @@ func constTripCount(c *Ctx, fn *ssa.Function, li *loopInfo) (int64, bool) {
 
 func r15_3(c *Ctx, r *Report) {
 	const rule = "R15.3"
-	r.rule(rule, "Unit sizes. A week lists 7 days (1 + a constant-trip loop of 6), a season 3 months, a half-year 6, a year 12, all from the named constants; moving n whole weeks is NextDay(7*n); moving by seasons/half-years multiplies by the same 3/6 used for listing; the month step divides and wraps by 12; the first-day offset is wrapped by 7.")
+	r.rule(rule, "Unit sizes. A week lists 7 days (1 + a constant-trip loop of 6), a season 3 months, a half-year 6, a year 12, all from the named constants; moving n whole weeks is NextDay(7*n); moving by seasons/half-years multiplies by the same 3/6 used for listing; (the month step and the weekday-offset wrap are decided by R15.7 and R15.6).")
 	sizes := []struct {
 		fn   string
 		want int64
@@ -314,44 +314,8 @@ func r15_3(c *Ctx, r *Report) {
 		}
 		r.check(ok, rule, "calendar.(*SolarYear).Next adds the step to the year", c.fnPos(fn), "year + n")
 	}
-	// month step: constants 12 only
-	if fn := c.Fn(r, rule, "calendar.(*SolarMonth).Next"); fn != nil {
-		ks := intConstUses(fn)
-		var bad []string
-		n12 := 0
-		for _, u := range ks {
-			switch u.op {
-			case token.QUO, token.REM, token.GTR:
-				if u.k == 12 {
-					n12++
-				} else {
-					bad = append(bad, fmt.Sprintf("%s %d", u.op, u.k))
-				}
-			case token.ADD, token.SUB:
-				if u.k == 12 {
-					n12++
-				} else if u.k != 1 {
-					bad = append(bad, fmt.Sprintf("%s %d", u.op, u.k))
-				}
-			}
-		}
-		r.check(len(bad) == 0 && n12 >= 5, rule, "calendar.(*SolarMonth).Next divides and wraps by 12", c.fnPos(fn), fmt.Sprintf("%d uses of the constant 12 in / %% > +/-; other constants: %v", n12, bad))
-	}
-	// offsets wrapped by 7
-	for _, name := range []string{"calendar.(*SolarWeek).GetFirstDay", "calendar.(*SolarWeek).GetIndex", "calendar.(*SolarWeek).GetIndexInYear"} {
-		fn := c.Fn(r, rule, name)
-		if fn == nil {
-			continue
-		}
-		wrap := false
-		for _, u := range intConstUses(fn) {
-			if u.op == token.ADD && u.k == 7 {
-				wrap = true
-			}
-		}
-		r.check(wrap, rule, name+" wraps the weekday offset by 7", c.fnPos(fn), "offset += 7 when negative")
-	}
-	r.floor(rule, 10)
+	// the month step (12) and the weekday-offset wrap (7) are decided by R15.7 and R15.6
+	r.floor(rule, 7)
 }
 
 type constUse struct {
